@@ -346,6 +346,29 @@ PROPS['C09'] = {
     'assumptions': ['the repository\'s own fixtures are the documented shapes', 'classes without a fixture are not exercised (listed in the evidence)'],
 }
 
+PROPS['C03'] = {
+    'sidecars': ['contracts/C03_e2e.py'],
+    'plugins': ['sqlmodel'],
+    'level': 'other',
+    'explanation': 'PARTIAL - glue conjuncts only.  The statement is about conversations between 2-4 accounts through a server, all delivery '
+                   'orders, restarts and what the Signal library computes; no contract decides that.  Discharged on the real code, for all inputs: '
+                   '(a) only ciphertext goes down - AxolotlSendLayer.send never forwards a message stanza (it goes to the encrypting path, once), '
+                   'sendToContact hands the payload to manager.encrypt and to nothing else and builds the envelope from the cipher output, '
+                   'sendEncEntities sends exactly the serialised encrypted envelope and keeps the original for retries; (b) padding - what reaches '
+                   'the cipher is payload || 1..255 padding bytes each equal to their count, and unpad(payload || padding) == payload for every '
+                   'payload (scenario over the two contracts); (c) the sent queue is bounded by 100, appends in order, drops the oldest only at the '
+                   'bound, finds the first message with a given id and removes it unless it is to be kept; (d) receipts - a retry request for a '
+                   'queued message is acked once and triggers one key fetch, any other receipt goes up once, non-receipts are left to the receive '
+                   'layer; (e) receive side - dispatch (messages to decryption, receipts ignored, everything else up once), the retry counter '
+                   '(one receipt per request, count +1 per request for the same message, reset on success), and via C17: duplicate -> one receipt, '
+                   'invalid key / message -> one retry, no session -> parked + one key fetch, untrusted identity -> refused.  NOT decided: delivery '
+                   'exactly once across accounts, group fan-out (sendToGroup*), authenticity, the server.',
+    'assumptions': ['python-axolotl (SessionCipher, GroupCipher, SessionBuilder) is outside the proofs: encrypt / decrypt are opaque events',
+                    'random.randint(a, b) is in [a, b]', 'entity constructors (EncProtocolEntity, EncryptedMessageProtocolEntity, retry receipts) are '
+                    'opaque events: what they serialise is C09', 'group sending (sendToGroup, sendToGroupWithSessions, ensureSessionsAndSendToGroup) and '
+                    'handle*Message are not under contract'],
+}
+
 NOT_APPLICABLE = {
     'C11': 'quantifies over thread interleavings (2-4 sender threads through lock/queue operations); no verifier available here '
            'has a thread or permission model and sequential contracts cannot express "for every schedule" (DESIGN.md section 8)',
